@@ -38,8 +38,12 @@ type ROp struct {
 	Nu     int    `json:"nu"`
 	Nr     int    `json:"nr"`
 	Ao     int    `json:"ao"`
+	Nuv    string `json:"nuv"`
 	Kt     string `json:"kt"`
 	H      int    `json:"h"`
+
+	// set by the harness from a configuration record, never by the specification
+	KeyNonce bool `json:"keynonce,omitempty"`
 }
 
 func (o *ROp) key() string {
@@ -294,10 +298,8 @@ func (c *Concretizer) build0(o *ROp) *operation.AnchoredOperation {
 	return &cp
 }
 
-func (c *Concretizer) buildRequest(o *ROp, variant int) ([]byte, int) {
-	alg := algCode(o.H)
-
-	// ---- delta -----------------------------------------------------------------
+// buildDelta returns the generic JSON of the operation's delta (nil: no delta member).
+func (c *Concretizer) buildDelta(o *ROp) map[string]interface{} {
 	var delta map[string]interface{}
 
 	hasDelta := o.Type == "create" || o.Type == "update" || o.Type == "recover" || o.Type == "bogus"
@@ -332,6 +334,26 @@ func (c *Concretizer) buildRequest(o *ROp, variant int) ([]byte, int) {
 		}
 	}
 
+	if o.Nuv == "reuse_signing" && delta != nil {
+		// the next update commitment is the commitment of the key that signs this operation
+		signer := c.pool.Get(o.Kt, fmt.Sprintf("sig%d", o.Nr))
+		jwk := cloneJWK(signer.JWK)
+
+		if o.KeyNonce {
+			jwk.Nonce = b64(seedBytes(c.seed, "nonce/"+signer.Name, 16))
+		}
+
+		delta["updateCommitment"] = refCommitment(jwkMap(jwk), algCode(o.H))
+	}
+
+	return delta
+}
+
+func (c *Concretizer) buildRequest(o *ROp, variant int) ([]byte, int) {
+	alg := algCode(o.H)
+
+	delta := c.buildDelta(o)
+
 	var deltaHash string
 
 	{
@@ -363,7 +385,7 @@ func (c *Concretizer) buildRequest(o *ROp, variant int) ([]byte, int) {
 			sd["anchorOrigin"] = ao
 		}
 
-		req := map[string]interface{}{"type": "create", "suffixData": sd}
+		req := map[string]interface{}{"type": o.Type, "suffixData": sd}
 		if delta != nil {
 			req["delta"] = delta
 		}
@@ -400,6 +422,10 @@ func (c *Concretizer) buildRequest(o *ROp, variant int) ([]byte, int) {
 	case "reuse":
 		// the next recovery commitment is the commitment of the key that signs this operation
 		recCommit = refCommitment(jwk, alg)
+	}
+
+	if o.KeyNonce && o.Wf != "nonce" {
+		jwk.Nonce = b64(seedBytes(c.seed, "nonce/"+signer.Name, 16))
 	}
 
 	keyName := "updateKey"
